@@ -44,6 +44,8 @@ def norm(cfg):
         if c['between'] and c['t'] not in out['splits']:
             c['between'] = False
     out['maintcap'] = cfg.get('maintcap', -1)
+    out['scheds'] = [dict(tt=[[int(d), str(st)] for d, st in sc['tt']], cyc=bool(sc.get('cyc', True)),
+                          targets=list(sc['targets'])) for sc in cfg.get('scheds') or []]
     out['serial'] = is_serial(out)
     out['trace'] = bool(cfg.get('trace', False))
     return out
@@ -52,7 +54,7 @@ def norm(cfg):
 def is_serial(cfg):
     """source -> stations -> sink with constant parameters and nothing scripted: the C04 reference applies."""
     devs = cfg['devs']
-    if len(devs) < 2 or cfg.get('script') or cfg.get('pools'):
+    if len(devs) < 2 or cfg.get('script') or cfg.get('pools') or cfg.get('scheds'):
         return False
     if devs[0]['kind'] != 'source' or devs[-1]['kind'] != 'sink' or devs[0]['bsrc'] >= 0:
         return False
@@ -271,6 +273,8 @@ def gen_targeted(rng, count=60):
         kind = i % 8
         if i % 16 == 9:
             kind = 5 if i % 32 == 9 else 8
+        if i % 16 == 8:
+            kind = 9
         H = rng.choice([24, 32])
         if kind == 0:        # failure during a maintenance shutdown, part in process or not
             c = rng.choice([4, 6, 8, 10])
@@ -380,6 +384,18 @@ def gen_targeted(rng, count=60):
                       dict(t=t1 + rng.choice([8, 10]), call='rewire', dev=4, ups=rng.choice([[2, 3], [3], [3, 2]]))]
             cfg = dict(devs=devs, script=script, horizon=H + 8)
             fam = 'rewire'
+        elif kind == 9:   # an operating schedule blocks and unblocks a machine's input (OperatingSchedule shape)
+            devs = [src(rng.choice([1, 2]), rng.choice([6, 9, -1]), pval=1),
+                    dev(rng.choice(['processor', 'handler', 'buffer']), [1], cyc=rng.choice([1, 2, 3]), cap=2),
+                    dev('processor', [2], cyc=rng.choice([1, 2])), dev('sink', [3], cyc=0)]
+            tt = [[rng.choice([2, 3, 5]), 'on'], [rng.choice([1, 2, 4]), 'off']]
+            if rng.random() < 0.3:
+                tt.append([rng.choice([0, 1, 2]), 'on'])
+            scheds = [dict(tt=tt, cyc=rng.random() < 0.75, targets=rng.choice([[2], [3], [2, 3]]))]
+            if rng.random() < 0.3:
+                scheds.append(dict(tt=[[4, 'off'], [3, 'on']], cyc=True, targets=[4]))
+            cfg = dict(devs=devs, horizon=H, scheds=scheds)
+            fam = 'schedule'
         else:                # a blocked machine that goes down with a finished part while downstream frees up
             devs = [src(1, rng.choice([3, 5, -1]), pval=1), dev('processor', [1], cyc=rng.choice([1, 2])),
                     dev('processor', [2], cyc=rng.choice([6, 8, 10])), dev('sink', [3], cyc=0)]
